@@ -5,20 +5,26 @@ import ast
 import copy
 import itertools
 import re
-from typing import Any, Callable, Iterator
+from typing import Any, Callable, Iterable, Iterator
 
-from ..astutil import (Locals, call_name, calls_in, cfg_of, constructs_error, local_names, names_in, norm, receivers, region, resolved_text,
+from ..astutil import (ERROR_CLASSES, Locals, call_name, calls_in, cfg_of, constructs_error, local_names, names_in, norm, receivers, region, resolved_text,
                        stmt_of, where)
-from ..cfg import CFG, EXIT, walk_own
+from ..cfg import CFG, ENTRY, EXIT, walk_own
 from ..core import Report
 
 LEVEL = ("structural clauses on the region of merge_properties / _process_properties / _process_models, decided on paths (small symbolic "
-         "execution over isinstance atoms, statement CFG), never on statement shape: every merge function dispatches symmetrically in "
+         "execution over isinstance atoms, statement CFG), never on statement shape (a helper that is handed the classes it tests, that "
+         "builds a result from arguments it does not test, or that is a predicate over isinstance tests is executed as part of each "
+         "caller, with the classes of that call; a loop over a written-out sequence is unrolled): every merge function dispatches symmetrically in "
          "its two arguments, the class that is discarded at a merge site is the wider one (Any > number/string > integer > enum), the "
          "smaller enum wins and both subset directions are tried, incompatible pairs end in an error, the enum subset decision looks at "
          "values; requiredness is a disjunction, inline members' `required` lists are unioned on every path and reach every inserted "
          "property; all members contribute (Reference and inline, required and optional properties of a parent); parent properties are "
          "not mutated; every model of a round is processed, re-queued or reported, self-reference is diverted (separator-anchored test). "
+         "Every value that can reach `default=` of a merged copy is None, the copy's own default or the override's default converted "
+         "by the merged property, and a conversion error is returned before the copy is made; get_imports / get_lazy_imports are called "
+         "for each element of an unfiltered iteration over all collected properties on every path of the iteration; no validator of "
+         "Schema moves allOf away from its sibling keywords on a path on which the schema has a type (frozen exception: no type). "
          "The allOf loop, the building loop, the insertions and the promotion of inherited properties are found by what they do, in "
          "_process_properties, a nested function or a helper that is handed its state; variables by role, never by name.")
 
@@ -65,21 +71,104 @@ def _resolve(e: ast.expr, st: _State) -> ast.expr:
 _NEG = {ast.IsNot: ast.Is, ast.NotEq: ast.Eq, ast.NotIn: ast.In}
 
 
+class Follow:
+    """the helper functions a symbolic execution steps into instead of treating their call as an opaque value:
+    `value`: functions that test their arguments against classes they are handed as parameters (`isinstance(a, narrow)`) - what such a
+             function decides is a fact of each call, not of the function, so it is decided in each caller with the classes of that call;
+    `test`:  the same plus predicates (functions that return the truth value of isinstance tests on their arguments), where they are
+             used as a test"""
+
+    def __init__(self, value: dict[str, ast.FunctionDef] | None = None, test: dict[str, ast.FunctionDef] | None = None) -> None:
+        self.value = dict(value or {})
+        self.test = {**(test or {}), **self.value}
+
+
+def _site(c: ast.Call) -> tuple[str, int, int]:
+    """identifies a call in the source (survives the copies made while resolving locals)"""
+    return call_name(c).rsplit(".", 1)[-1], getattr(c, "lineno", -1), getattr(c, "col_offset", -1)
+
+
+def _bind_args(fn: ast.FunctionDef, c: ast.Call) -> dict[str, ast.expr] | None:
+    """parameter -> argument expression (or default) of a call, None when the call cannot be matched to the signature statically"""
+    a = fn.args
+    if a.vararg or a.kwarg or any(isinstance(x, ast.Starred) for x in c.args) or any(kw.arg is None for kw in c.keywords):
+        return None
+    pos = [p.arg for p in [*a.posonlyargs, *a.args]]
+    if len(c.args) > len(pos):
+        return None
+    out: dict[str, ast.expr] = dict(zip(pos, c.args))
+    for p, d in zip(pos[len(pos) - len(a.defaults):], a.defaults):
+        out.setdefault(p, d)
+    for p, d in zip(a.kwonlyargs, a.kw_defaults):
+        if d is not None:
+            out.setdefault(p.arg, d)
+    allowed = {p.arg for p in [*a.args, *a.kwonlyargs]}
+    for kw in c.keywords:
+        if kw.arg not in allowed or kw.arg in dict(zip(pos, c.args)):
+            return None
+        out[kw.arg] = kw.value
+    return out if set(out) == {p.arg for p in [*a.posonlyargs, *a.args, *a.kwonlyargs]} else None
+
+
 class SymExec:
     """terminals: (return statement or None for falling off the end, resolved return expression, state)"""
 
-    def __init__(self, fn: ast.FunctionDef, env: dict[str, bool] | None = None) -> None:
+    def __init__(self, fn: ast.FunctionDef, env: dict[str, bool] | None = None, follow: Follow | None = None) -> None:
         self.fn = fn
         self.env = env or {}
+        self.follow = follow
+        self.followed: set[tuple[str, int, int]] = set()  # the calls that were stepped into
         self.atoms: dict[str, ast.expr] = {}
         self.terminals: list[tuple[ast.stmt | None, ast.expr | None, _State]] = []
+        self._sinks = [self.terminals]  # where a return / raise is recorded: the function itself, or the call that is being followed
+        self._frames = [getattr(fn, "name", "")]
+        self._loops: list[tuple[list[_State], list[_State]]] = []  # per enclosing unrolled loop: the states at `continue` / at `break`
         self.budget = 4000
         for st in self._seq(fn.body, [_State()]):
             self.terminals.append((None, None, st))
 
+    # -- calls that are followed into the callee -----------------------------------------------------------------------
+    def _follow(self, call: ast.expr | None, st: _State, mode: str, pre: bool = False) -> list[tuple[ast.stmt | None, ast.expr, _State]] | None:
+        """the outcomes of a call of a `Follow` function, executed with its parameters bound to the arguments of this call: (raise
+        statement or None, what is returned - in the caller's terms -, state).  None: not such a call (the caller treats it as a value).
+        `pre`: the argument expressions are already resolved."""
+        if self.follow is None or not isinstance(call, ast.Call):
+            return None
+        callee = (self.follow.test if mode == "test" else self.follow.value).get(call_name(call))
+        if callee is None or callee.name in self._frames or len(self._frames) > 3:
+            return None
+        bound = _bind_args(callee, call)
+        if bound is None:
+            return None
+        self.followed.add(_site(call))
+        saved = st.store
+        inner = st.fork()
+        inner.store = {p: (copy.deepcopy(v) if pre else _resolve(v, st)) for p, v in bound.items()}
+        sink: list[tuple[ast.stmt | None, ast.expr | None, _State]] = []
+        self._sinks.append(sink)
+        self._frames.append(callee.name)
+        try:
+            rest = self._seq(callee.body, [inner])
+        finally:
+            self._sinks.pop()
+            self._frames.pop()
+        out: list[tuple[ast.stmt | None, ast.expr, _State]] = []
+        for s, e, s2 in sink + [(None, None, s2) for s2 in rest]:
+            s2.store = dict(saved)  # the callee's locals end with the call
+            out.append((s if isinstance(s, ast.Raise) else None, e if e is not None else ast.Constant(value=None), s2))
+        return out
+
+    def _returned(self, followed: list[tuple[ast.stmt | None, ast.expr, _State]]) -> list[tuple[ast.expr, _State]]:
+        """the outcomes in which the followed call returns; one that raises ends the caller as well"""
+        for rs, _, s2 in followed:
+            if rs is not None:
+                self._sinks[-1].append((rs, None, s2))
+        return [(e, s2) for rs, e, s2 in followed if rs is None]
+
     # -- tests ---------------------------------------------------------------------------------------------------------
-    def _truth(self, test: ast.expr, st: _State) -> list[tuple[bool, _State]]:
-        """the possible truth values of test in state st, each with the state in which it holds (unknown atoms fork)"""
+    def _truth(self, test: ast.expr, st: _State, pre: bool = False) -> list[tuple[bool, _State]]:
+        """the possible truth values of test in state st, each with the state in which it holds (unknown atoms fork).  `pre`: test is
+        already resolved (written in terms of the arguments), its names are not looked up again"""
         if isinstance(test, ast.BoolOp):
             is_and = isinstance(test.op, ast.And)
             out: list[tuple[bool, _State]] = []
@@ -87,7 +176,7 @@ class SymExec:
             for v in test.values:
                 nxt = []
                 for s in pending:
-                    for val, s2 in self._truth(v, s):
+                    for val, s2 in self._truth(v, s, pre):
                         if val != is_and:  # short circuit: a false conjunct / a true disjunct decides
                             out.append((val, s2))
                         else:
@@ -95,31 +184,53 @@ class SymExec:
                 pending = nxt
             return out + [(is_and, s) for s in pending]
         if isinstance(test, ast.UnaryOp) and isinstance(test.op, ast.Not):
-            return [(not v, s) for v, s in self._truth(test.operand, st)]
+            return [(not v, s) for v, s in self._truth(test.operand, st, pre)]
         if isinstance(test, ast.NamedExpr) and isinstance(test.target, ast.Name):
-            st.store[test.target.id] = _resolve(test.value, st)
-            return self._truth(test.value, st)
+            followed = self._follow(test.value, st, "test", pre)
+            if followed is not None:
+                out = []
+                for e, s2 in self._returned(followed):
+                    s2.store[test.target.id] = e
+                    out += self._truth(e, s2, True)
+                return out
+            st.store[test.target.id] = test.value if pre else _resolve(test.value, st)
+            return self._truth(test.value, st, pre)
         neg = False
         if isinstance(test, ast.Compare) and len(test.ops) == 1:
-            for part in (test.left, test.comparators[0]):  # walrus inside a comparison: `(m := f(x)) is not None`
+            sides = [test.left, test.comparators[0]]
+            for i, part in enumerate(sides):  # walrus inside a comparison: `(m := f(x)) is not None`
                 if isinstance(part, ast.NamedExpr) and isinstance(part.target, ast.Name):
-                    st.store[part.target.id] = _resolve(part.value, st)
+                    followed = self._follow(part.value, st, "value", pre)
+                    if followed is not None:
+                        out = []
+                        for e, s2 in self._returned(followed):
+                            s2.store[part.target.id] = e
+                            other = sides[1 - i] if pre else _resolve(sides[1 - i], s2)
+                            out += self._truth(ast.Compare(left=e if i == 0 else other, ops=test.ops, comparators=[other if i == 0 else e]), s2, True)
+                        return out
+                    st.store[part.target.id] = part.value if pre else _resolve(part.value, st)
             if type(test.ops[0]) in _NEG:
                 neg = True
                 test = ast.Compare(left=test.left, ops=[_NEG[type(test.ops[0])]()], comparators=test.comparators)
-        r = _resolve(test, st)
+        r = copy.deepcopy(test) if pre else _resolve(test, st)
         for n in ast.walk(r):  # the walrus itself is not part of the atom
             if isinstance(n, ast.Compare):
                 n.left = n.left.value if isinstance(n.left, ast.NamedExpr) else n.left
                 n.comparators = [c.value if isinstance(c, ast.NamedExpr) else c for c in n.comparators]
         if isinstance(r, ast.Constant):
             return [(bool(r.value) != neg, st)]
+        if isinstance(r, ast.Compare) and len(r.ops) == 1 and isinstance(r.ops[0], ast.Is) and isinstance(r.left, ast.Name) and \
+                isinstance(r.comparators[0], ast.Name) and r.left.id == r.comparators[0].id:  # a local known to hold this very argument
+            return [(True != neg, st)]
         if isinstance(r, ast.Compare) and len(r.ops) == 1 and isinstance(r.ops[0], (ast.Is, ast.Eq)) and isinstance(r.left, ast.Constant) and \
                 isinstance(r.comparators[0], ast.Constant):  # a local known to hold None / a literal on this path
             same = r.left.value is r.comparators[0].value if isinstance(r.ops[0], ast.Is) else r.left.value == r.comparators[0].value
             return [(bool(same) != neg, st)]
-        if isinstance(r, (ast.BoolOp, ast.UnaryOp)) and r is not test and norm(r) != norm(test):
-            return [(v != neg, s) for v, s in self._truth(r, st)]  # a local that holds a boolean expression
+        if isinstance(r, (ast.BoolOp, ast.UnaryOp)) and not pre and norm(r) != norm(test):
+            return [(v != neg, s) for v, s in self._truth(r, st, True)]  # a local that holds a boolean expression
+        followed = self._follow(r, st, "test", True)
+        if followed is not None:  # a predicate over the arguments: true exactly when what it returns is
+            return [(v != neg, s3) for e, s2 in self._returned(followed) for v, s3 in self._truth(e, s2, True)]
         key = norm(r)
         self.atoms.setdefault(key, r)
         if key in self.env:
@@ -142,12 +253,15 @@ class SymExec:
                 break
         return cur
 
-    def _bind(self, target: ast.expr, value: ast.expr | None, st: _State) -> None:
+    def _bind(self, target: ast.expr, value: ast.expr | None, st: _State, pre: bool = False) -> None:
+        def res(v: ast.expr) -> ast.expr:
+            return v if pre else _resolve(v, st)
+
         if isinstance(target, ast.Name):
-            st.store[target.id] = _resolve(value, st) if value is not None else None
+            st.store[target.id] = res(value) if value is not None else None
         elif isinstance(target, (ast.Tuple, ast.List)):
             if isinstance(value, (ast.Tuple, ast.List)) and len(value.elts) == len(target.elts):
-                vals = [_resolve(v, st) for v in value.elts]
+                vals = [res(v) for v in value.elts]
                 for t, v in zip(target.elts, vals):
                     if isinstance(t, ast.Name):
                         st.store[t.id] = v
@@ -161,6 +275,14 @@ class SymExec:
             for val, s2 in self._truth(value.test, st):
                 out += self._assign(targets, value.body if val else value.orelse, s2)
             return out
+        followed = self._follow(value, st, "value")
+        if followed is not None:  # x = helper(...): one state for each way the helper returns
+            out = []
+            for e, s2 in self._returned(followed):
+                for t in targets:
+                    self._bind(t, e, s2, pre=True)
+                out.append(s2)
+            return out
         for t in targets:
             self._bind(t, value, st)
         return [st]
@@ -169,8 +291,13 @@ class SymExec:
         if isinstance(value, ast.IfExp):  # return A if T else B
             for val, s2 in self._truth(value.test, st):
                 self._ret(s, value.body if val else value.orelse, s2)
+            return
+        followed = self._follow(value, st, "value")
+        if followed is not None:  # return helper(...): returns whatever the helper returns
+            for e, s2 in self._returned(followed):
+                self._sinks[-1].append((s, e, s2))
         else:
-            self.terminals.append((s, _resolve(value, st) if value is not None else None, st))
+            self._sinks[-1].append((s, _resolve(value, st) if value is not None else None, st))
 
     def _stmt(self, s: ast.stmt, st: _State) -> list[_State]:
         self.budget -= 1
@@ -181,7 +308,9 @@ class SymExec:
             return []
         if isinstance(s, (ast.Raise, ast.Continue, ast.Break)):
             if isinstance(s, ast.Raise):
-                self.terminals.append((s, None, st))
+                self._sinks[-1].append((s, None, st))
+            elif self._loops:
+                self._loops[-1][isinstance(s, ast.Break)].append(st)
             return []
         if isinstance(s, ast.If):
             out: list[_State] = []
@@ -195,13 +324,28 @@ class SymExec:
             for n in names_in(s.target):
                 st.store[n] = None
             return [st]
+        if isinstance(s, ast.For):
+            seq = _resolve(s.iter, st)
+            if isinstance(seq, (ast.Tuple, ast.List)) and 0 < len(seq.elts) <= 4 and not any(isinstance(x, ast.Starred) for x in seq.elts):
+                cur, done = [st], []  # a loop over a sequence that is written out is its iterations one after the other
+                for elt in seq.elts:
+                    self._loops.append(([], []))
+                    nxt: list[_State] = []
+                    for c in cur:
+                        self._bind(s.target, elt, c, pre=True)
+                        nxt += self._seq(s.body, [c])
+                    continued, broken = self._loops.pop()
+                    cur, done = nxt + continued, done + broken
+                return self._seq(s.orelse, cur) + done
         if isinstance(s, (ast.For, ast.AsyncFor, ast.While)):
             bound = {n.id for x in ast.walk(s) for n in [x] if isinstance(n, ast.Name) and isinstance(n.ctx, ast.Store)}
             inner = st.fork()
             for n in bound:
                 inner.store[n] = None
                 st.store[n] = None
+            self._loops.append(([], []))
             after = self._seq(s.body, [inner])  # one symbolic iteration (returns inside are terminals), or none at all
+            self._loops.pop()
             return [st] + after[:1]
         if isinstance(s, (ast.With, ast.AsyncWith)):
             return self._seq(s.body, [st])
@@ -231,15 +375,16 @@ def _isinstance_atom(ix: Any, module: Any, e: ast.AST, params: list[str]) -> tup
 class MergeFn:
     """one two-argument merge function, executed under every truth assignment of its isinstance(<argument>, T) tests"""
 
-    def __init__(self, ix: Any, f: Any) -> None:
+    def __init__(self, ix: Any, f: Any, follow: Follow | None = None) -> None:
         self.f = f
         a = f.node.args
         self.params = [p.arg for p in [*a.posonlyargs, *a.args]][:2]
         self.atoms: dict[str, tuple[str, frozenset[str]]] = {}
         self.runs: list[tuple[dict[str, bool], SymExec]] = []
+        self.followed: set[tuple[str, int, int]] = set()  # calls of Follow functions that were decided as part of this function
         seen: set[str] = set()
         for _ in range(3):  # atoms on a local appear once the local is resolved (enum_prop -> prop1 when prop1 is the enum)
-            probes = [SymExec(f.node)] + [r for _, r in self.runs]
+            probes = [SymExec(f.node, None, follow)] + [r for _, r in self.runs]
             for p in probes:
                 for key, e in p.atoms.items():
                     at = _isinstance_atom(ix, f.module, e, self.params)
@@ -252,7 +397,11 @@ class MergeFn:
             keys = sorted(self.atoms)
             for vals in itertools.product([False, True], repeat=len(keys)):
                 env = dict(zip(keys, vals))
-                self.runs.append((env, SymExec(f.node, env)))
+                self.runs.append((env, SymExec(f.node, env, follow)))
+        if not self.runs:  # no isinstance test on the arguments: one run, nothing is known about them
+            self.runs = [({}, SymExec(f.node, {}, follow))]
+        for _, r in self.runs:
+            self.followed |= r.followed
 
     def restrict_to_calls_from(self, caller: "MergeFn") -> None:
         """keep the truth assignments under which `caller` can call this function with its own two arguments in the same order (the callee
@@ -365,11 +514,24 @@ def run(rep: Report, ctx: Any) -> str:
     rep.rule("R15.4", "parents first: a model that failed is re-queued or reported, never dropped; self reference is diverted to final errors")
     rep.rule("R15.5", "properties inherited from a referenced parent are shared objects and are not mutated while composing a child")
 
+    rep.rule("R15.6", "the default of a merged property is one the merged (narrowed) property accepts, or a diagnostic: every value that can reach "
+                      "`default=` of the merged copy is None, the default the copy already has, or the override's default converted by the "
+                      "merged property itself; a conversion error is returned before the copy is made")
+    rep.rule("R15.7", "every property of the composed model, inherited ones included, contributes what its code needs: get_imports and "
+                      "get_lazy_imports are called on each element of an iteration over all collected properties, on every path of the iteration")
+
+    rep.rule("R15.8", "a composed schema reaches the composition whole: no validator of Schema takes `allOf` away from the keywords written "
+                      "next to it (properties, required) on a path on which the schema has a `type` - such a schema is made nullable through "
+                      "its type; frozen exception: a schema without `type` (see _ALLOF_MOVED_FOR)")
+
     mp = ix.func("merge_properties.merge_properties")
     _merge_rules(rep, ctx, mp)
     _required_and_members(rep, ctx, cfgs)
     check_no_parent_mutation(rep, ctx, "R15.5")
     _parents_first(rep, ctx, cfgs)
+    _merged_default(rep, ctx, cfgs)
+    _imports_of_every_property(rep, ctx, cfgs)
+    _composed_schema_stays_whole(rep, ctx, cfgs)
     return LEVEL
 
 
@@ -483,7 +645,20 @@ def _feasible(mf: MergeFn, env: dict[str, bool]) -> bool:
     return True
 
 
+def _same_object_assumed(mf: MergeFn, run: SymExec, st: _State) -> bool:
+    """on this path `<one argument> is <the other>` holds"""
+    for key, val in st.assume.items():
+        e = run.atoms.get(key)
+        if val and isinstance(e, ast.Compare) and len(e.ops) == 1 and isinstance(e.ops[0], ast.Is):
+            sides = [e.left, e.comparators[0]]
+            if all(isinstance(s, ast.Name) for s in sides) and {s.id for s in sides} == set(mf.params):  # type: ignore[attr-defined]
+                return True
+    return False
+
+
 def _same_class_assumed(mf: MergeFn, run: SymExec, st: _State) -> bool:
+    if _same_object_assumed(mf, run, st):
+        return True
     for key, val in st.assume.items():
         e = run.atoms.get(key)
         if val and isinstance(e, ast.Compare) and isinstance(e.ops[0], ast.Is):
@@ -524,11 +699,81 @@ def _referenced_region(ix: Any, f: Any, depth: int = 3) -> list[Any]:
     return out
 
 
+def _is_truth_value(e: ast.expr | None, predicates: Iterable[str] = ()) -> bool:
+    """the expression is a truth value computed by tests (not one of the objects that are tested)"""
+    if isinstance(e, ast.BoolOp):
+        return all(_is_truth_value(v, predicates) for v in e.values)
+    if isinstance(e, ast.UnaryOp):
+        return isinstance(e.op, ast.Not)
+    if isinstance(e, ast.Constant):
+        return isinstance(e.value, bool)
+    if isinstance(e, ast.Call):
+        return call_name(e) in ("isinstance", "issubclass", "any", "all", "bool") or call_name(e) in predicates
+    return isinstance(e, ast.Compare)
+
+
+def _followed_helpers(reg: list[Any], dispatcher: Any) -> tuple[Follow, set[str]]:
+    """(the functions of the region that are judged inside their callers, the predicates among them).
+    - A function that tests an argument against a class it receives as a parameter has no verdict of its own: which class is kept and
+      which is discarded is a fact of each call.  It is executed as part of every function that calls it, with that call's classes.
+    - Likewise a function that builds a merge result (MERGE_BASE_FN) without testing the class of any of its arguments: what it is handed
+      is known to the caller only.
+    - A predicate (returns the truth value of isinstance tests on its arguments) contributes what it tests to the function that asks."""
+    value: dict[str, ast.FunctionDef] = {}
+    preds: dict[str, ast.FunctionDef] = {}
+    for untested in (False, True):  # who tests what must be settled (predicates followed) before a function counts as testing nothing
+        for _ in range(3):  # a helper that only hands on to such a helper is one itself
+            before = (set(value), set(preds))
+            follow = Follow(value, preds)
+            for f in reg:
+                if f.name in value or f is dispatcher or f.name == MERGE_BASE_FN:
+                    continue
+                own = {p.arg for p in f.params}
+                run = SymExec(f.node, None, follow)
+                seen = [*run.atoms.values(), *[c for _, e, _ in run.terminals if e is not None for c in calls_in(e)]]  # tested, or returned as the answer
+                tests = [e for e in seen if isinstance(e, ast.Call) and call_name(e) == "isinstance" and len(e.args) == 2]
+                tests_own = any(isinstance(e.args[0], ast.Name) and e.args[0].id in own for e in tests)
+                builds = any(isinstance(e, ast.Call) and call_name(e) == MERGE_BASE_FN for _, e, _ in run.terminals)
+                if any(names_in(e.args[1]) & own for e in tests) or (untested and builds and not tests_own):
+                    value[f.name] = f.node
+                    preds.pop(f.name, None)
+                elif tests_own and run.terminals and all(isinstance(s, ast.Return) and _is_truth_value(e, follow.test) for s, e, _ in run.terminals):
+                    preds[f.name] = f.node
+            if (set(value), set(preds)) == before:
+                break
+    return Follow(value, preds), set(preds)
+
+
+def _decided_in_callers(reg: list[Any], name: str, followed: set[tuple[str, int, int]]) -> bool:
+    """every mention of the function in the region is a call that was executed as part of its caller"""
+    n_refs = 0
+    for f in reg:
+        call_of = {id(c.func): c for c in calls_in(f.node)}
+        for n in ast.walk(f.node):
+            if isinstance(n, ast.Name) and isinstance(n.ctx, ast.Load) and n.id == name:
+                n_refs += 1
+                if id(n) not in call_of or _site(call_of[id(n)]) not in followed:
+                    return False
+    return n_refs > 0
+
+
 def _merge_rules(rep: Report, ctx: Any, mp: Any) -> None:
     ix = ctx.py
     it, _ = ctx.flow
-    fns = [MergeFn(ix, f) for f in _referenced_region(ix, mp) if len([*f.node.args.posonlyargs, *f.node.args.args]) >= 2 and f.node.args.vararg is None]
-    fns = [m for m in fns if m.atoms]
+    reg = _referenced_region(ix, mp)
+    follow, predicates = _followed_helpers(reg, mp)
+    fns = [MergeFn(ix, f, follow) for f in reg if len([*f.node.args.posonlyargs, *f.node.args.args]) >= 2 and f.node.args.vararg is None]
+    # a function without isinstance tests on its arguments decides nothing about classes; a predicate returns no merge result (its tests
+    # count where it is asked)
+    fns = [m for m in fns if (m.atoms or m.f.name in follow.value) and m.f.name not in predicates]
+    # a function that is handed the classes it tests (or builds a result from arguments it does not test) is judged in its callers, with
+    # what each call knows; on its own only when a mention of it was not executed as part of a function that is judged here - then the
+    # classes are unknown and the clauses say so
+    decided: set[tuple[str, int, int]] = set().union(*[m.followed for m in fns if m.f.name not in follow.test])
+    in_callers = {g for g in follow.value if _decided_in_callers(reg, g, decided)}
+    fns = [m for m in fns if m.f.name not in in_callers]
+    for g in sorted(set(follow.value) - in_callers):
+        rep.require(any(m.f.name == g for m in fns), f"{g} is judged: as part of every function that calls it, or on its own as a function of two arguments")
     rep.require(any(m.f is mp for m in fns), "isinstance dispatch in merge_properties")
     mpf = next(m for m in fns if m.f is mp)
     for m in fns:
@@ -586,7 +831,7 @@ def _merge_rules(rep: Report, ctx: Any, mp: Any) -> None:
                     continue
                 used = names_in(e) & set(mf.params)
                 equal = any(v and isinstance(r.atoms.get(k), ast.Compare) and isinstance(r.atoms[k].ops[0], ast.Eq) and  # type: ignore[union-attr]
-                            names_in(r.atoms[k]) >= set(mf.params) for k, v in st.assume.items())
+                            names_in(r.atoms[k]) >= set(mf.params) for k, v in st.assume.items()) or _same_object_assumed(mf, r, st)
                 if isinstance(e, ast.Name) and e.id not in mf.params:
                     continue  # a value produced elsewhere on the path (the result of a delegation held in a local)
                 if used != set(mf.params) and not equal:
@@ -997,16 +1242,20 @@ def _bypasses(cfg: CFG, src: object, dst: object, through: list[Any], adds_what:
 def _required_and_members(rep: Report, ctx: Any, cfgs: dict[str, CFG]) -> None:
     ix = ctx.py
     mca = ix.func("merge_properties._merge_common_attributes")
-    ev_calls = [n for n in ast.walk(mca.node) if isinstance(n, ast.Call) and call_name(n).endswith("evolve") and any(kw.arg == "required" for kw in n.keywords)]
+    # the copy with `required=` is made in _merge_common_attributes or in a helper it hands the accumulated property and one override to
+    ev_calls = [(g, n) for g in region(ix, mca) for n in ast.walk(g.node) if isinstance(n, ast.Call) and call_name(n).endswith("evolve")
+                and any(kw.arg == "required" for kw in n.keywords)]
     rep.require(ev_calls, "required= in _merge_common_attributes")
-    over = {norm(lp.target) for lp in ast.walk(mca.node) if isinstance(lp, ast.For) and norm(lp.iter) == "extend_with"}
-    for c in ev_calls:
+    each = {norm(lp.target) for lp in ast.walk(mca.node) if isinstance(lp, ast.For) and norm(lp.iter) == "extend_with"}  # one override at a time
+    for g, c in ev_calls:
+        over = set(each) if g is mca else {p_ for call in calls_in(mca.node) if call_name(call) == g.name
+                                           for p_, a in (_bind_args(g.node, call) or {}).items() if norm(a) in each}
         kw = next(k for k in c.keywords if k.arg == "required")
         acc = norm(c.args[0]) if c.args else ""
         want = {f"{acc}.required"} | {f"{o}.required" for o in over}
-        ok = _disjuncts(kw.value, Locals(mca.node)) == want and len(want) == 2
+        ok = _disjuncts(kw.value, Locals(g.node)) == want and len(want) == 2
         rep.check(ok, "R15.2", "_merge_common_attributes::required-disjunction", "merged requiredness is not `current.required or override.required`",
-                  where(mca, kw.value), lhs=norm(kw.value), rhs=" or ".join(sorted(want)))
+                  where(g, kw.value), lhs=norm(kw.value), rhs=" or ".join(sorted(want)))
 
     pp = ix.func("model_property._process_properties")
     reg = region(ix, pp)
@@ -1098,6 +1347,303 @@ def _required_and_members(rep: Report, ctx: Any, cfgs: dict[str, CFG]) -> None:
                   and n.attr in ("required_properties", "optional_properties")}
     rep.check(reads == {"required_properties", "optional_properties"}, "R15.3", "_process_properties::parent-required-and-optional",
               "only part of a referenced parent's properties is inherited", where(host, loop), lhs=sorted(reads), rhs="required_properties and optional_properties")
+
+
+# ======================================================================================================================
+# R15.6: the default of a merged property
+# ======================================================================================================================
+
+def _alternatives(e: ast.expr) -> list[ast.expr]:
+    """the expressions whose value e can have: operands of `or`, the two sides of a conditional expression"""
+    if isinstance(e, ast.BoolOp) and isinstance(e.op, ast.Or):
+        return [x for v in e.values for x in _alternatives(v)]
+    if isinstance(e, ast.IfExp):
+        return _alternatives(e.body) + _alternatives(e.orelse)
+    if isinstance(e, ast.NamedExpr):
+        return _alternatives(e.value)
+    return [e]
+
+
+def _leaves(e: ast.expr, g: Any, reg: list[Any], via: frozenset[str] = frozenset(), at: ast.stmt | None = None,
+            depth: int = 4) -> list[tuple[ast.expr, ast.stmt | None, frozenset[str]]]:
+    """where the value of e comes from in function g: (expression, the statement of g that computes it, the locals of g it passes through).
+    Locals are followed to everything they are assigned from (flow-insensitively: all assignments), a call of a function of the
+    region to what that function returns, written in terms of the arguments of the call."""
+    lc = Locals(g.node)
+    out: list[tuple[ast.expr, ast.stmt | None, frozenset[str]]] = []
+    for x in _alternatives(e):
+        if isinstance(x, ast.Name) and x.id in lc.defs and x.id not in via and depth > 0:
+            for kind, st, v in lc.defs[x.id]:
+                if kind == "assign" and isinstance(v, ast.expr):
+                    out += _leaves(v, g, reg, via | {x.id}, st if isinstance(st, ast.stmt) else stmt_of(g.node, st), depth - 1)
+                else:
+                    out.append((x, st if isinstance(st, ast.stmt) else None, via | {x.id}))
+            continue
+        h = next((h for h in reg if isinstance(x, ast.Call) and h.name == call_name(x) and h is not g), None)
+        bound = _bind_args(h.node, x) if h is not None and depth > 0 else None  # type: ignore[arg-type]
+        if h is not None and bound is not None:
+            for r in ast.walk(h.node):
+                if isinstance(r, ast.Return) and r.value is not None:
+                    for leaf, _, _ in _leaves(r.value, h, reg, frozenset(), None, depth - 1):
+                        out.append((_Subst(bound).visit(copy.deepcopy(leaf)), at, via))  # type: ignore[arg-type]
+            continue
+        out.append((x, at, via))
+    return out
+
+
+def _merged_default(rep: Report, ctx: Any, cfgs: dict[str, CFG]) -> None:
+    ix = ctx.py
+    mca = ix.func(f"merge_properties.{MERGE_BASE_FN}")
+    reg = region(ix, mca)
+    sites = [(g, c, kw) for g in reg for c in calls_in(g.node) if call_name(c).rsplit(".", 1)[-1] == "evolve" and c.args
+             for kw in c.keywords if kw.arg == "default"]
+    rep.require(sites, f"evolve(<merged>, default=...) in the region of {MERGE_BASE_FN}")
+    for g, c, kw in sites:
+        cfg = cfg_of(g, cfgs)
+        acc = norm(c.args[0])
+        merged = {acc} | {norm(v) for v in Locals(g.node).values_of(acc) if isinstance(v, ast.Name)}  # `current = base`: the same property
+        ev_stmt = stmt_of(g.node, c)
+        foreign, conversions = [], []
+        for leaf, st, via in _leaves(kw.value, g, reg):
+            if (isinstance(leaf, ast.Constant) and leaf.value is None) or (isinstance(leaf, ast.Attribute) and leaf.attr == "default" and norm(leaf.value) in merged):
+                continue
+            conv = isinstance(leaf, ast.Call) and isinstance(leaf.func, ast.Attribute) and leaf.func.attr == "convert_value" and \
+                norm(leaf.func.value) in merged and bool(leaf.args) and not (names_in(leaf.args[0]) & merged) and \
+                any(isinstance(a, ast.Attribute) and a.attr == "default" for a in ast.walk(leaf.args[0]))
+            if conv or (isinstance(leaf, ast.Call) and constructs_error(leaf)):
+                conversions.append((leaf, st, via))
+            else:
+                foreign.append(norm(leaf)[:70])
+        rep.check(not foreign, "R15.6", f"{g.name}::default-converted-by-merged",
+                  "a default reaches the merged property without being converted by the merged property itself: a default the narrower "
+                  "type does not accept (a member of the larger enum, rendered for the other class) is kept silently",
+                  where(g, c), lhs=sorted(set(foreign)), rhs=f"None | {acc}.default | {acc}.convert_value(<override>.default...)")
+        # a conversion that fails is a diagnostic: the error is returned, the copy is not made with it
+        unreported = []
+        for leaf, st, via in conversions:
+            def is_error_test(e: ast.AST, via: frozenset[str] = via) -> bool:
+                return isinstance(e, ast.Call) and call_name(e) == "isinstance" and len(e.args) == 2 and names_in(e.args[0]) & via != set() and \
+                    bool({norm(t).rsplit(".", 1)[-1] for t in (e.args[1].elts if isinstance(e.args[1], ast.Tuple) else [e.args[1]])} & ERROR_CLASSES)
+
+            def returns_it(n: object, via: frozenset[str] = via) -> bool:
+                return isinstance(n, ast.Return) and n.value is not None and (bool(names_in(n.value) & via) or constructs_error(n.value))
+
+            ok = False
+            for t in ast.walk(g.node):
+                pol = _polarity(t.test, is_error_test) if isinstance(t, ast.If) else None
+                if pol is None or st is None or ev_stmt is None:
+                    continue
+                err_entry, _ = _arm_entries(cfg, t, pol)
+                after = cfg.reachable_from(err_entry, avoid=returns_it) if not returns_it(err_entry) else set()
+                diverted = not any(n is ev_stmt or n is EXIT or isinstance(n, (ast.For, ast.While)) for n in after)
+                guarded = st is t or cfg.every_path_passes(st, ev_stmt, lambda n, t=t: n is t)
+                ok = ok or (diverted and guarded)
+            if not ok:
+                unreported.append(norm(leaf)[:70])
+        rep.check(not unreported, "R15.6", f"{g.name}::conversion-error-returned",
+                  "a default that the merged property rejects is not reported: the error is not returned on every path between the conversion "
+                  "and the merged copy", where(g, c), lhs=sorted(set(unreported)), rhs="if isinstance(<converted>, PropertyError): return <converted>")
+    rep.floor("merged_default_sites", len(sites), 1)
+
+
+# ======================================================================================================================
+# R15.7: every property of the composed model contributes its imports
+# ======================================================================================================================
+
+_SAME_ELEMENTS = ("list", "tuple", "sorted", "reversed", "iter", "chain", "set", "frozenset")  # calls that yield every element of their arguments
+
+
+def _unfiltered_sources(e: ast.AST, lc: Locals, depth: int = 5) -> set[str]:
+    """the collections of which an iteration over e visits every element (nothing filtered out on the way), by name"""
+    if depth == 0:
+        return set()
+    if isinstance(e, ast.Name):
+        ds = lc.defs.get(e.id, [])
+        if len(ds) == 1 and ds[0][0] == "assign" and ds[0][2] is not None:
+            return {e.id} | _unfiltered_sources(ds[0][2], lc, depth - 1)
+        return {e.id}
+    if isinstance(e, ast.Attribute):
+        return {norm(e)}
+    if isinstance(e, (ast.ListComp, ast.SetComp, ast.GeneratorExp)):
+        if len(e.generators) == 1 and not e.generators[0].ifs:
+            return _unfiltered_sources(e.generators[0].iter, lc, depth - 1)
+        return set()
+    if isinstance(e, ast.Call):
+        if isinstance(e.func, ast.Attribute) and e.func.attr in ("values", "copy") and not e.args:
+            return _unfiltered_sources(e.func.value, lc, depth - 1)
+        if call_name(e).rsplit(".", 1)[-1] in _SAME_ELEMENTS:
+            return set().union(*[_unfiltered_sources(a.value if isinstance(a, ast.Starred) else a, lc, depth - 1) for a in e.args]) if e.args else set()
+        return set()
+    if isinstance(e, ast.BinOp) and isinstance(e.op, ast.Add):
+        return _unfiltered_sources(e.left, lc, depth - 1) | _unfiltered_sources(e.right, lc, depth - 1)
+    if isinstance(e, (ast.List, ast.Tuple)):
+        return set().union(*[_unfiltered_sources(x.value, lc, depth - 1) for x in e.elts if isinstance(x, ast.Starred)]) if e.elts else set()
+    return set()
+
+
+def _binder(fn: ast.AST, node: ast.AST, name: str) -> ast.For | ast.comprehension | None:
+    """the innermost loop / comprehension clause around node that binds name"""
+    parents = {id(c): p for p in ast.walk(fn) for c in ast.iter_child_nodes(p)}
+    n = node
+    while id(n) in parents:
+        p = parents[id(n)]
+        if isinstance(p, (ast.For, ast.AsyncFor)) and n is not p.iter and name in names_in(p.target):
+            return p
+        if isinstance(p, (ast.ListComp, ast.SetComp, ast.GeneratorExp, ast.DictComp)):
+            for gen in p.generators:
+                if name in names_in(gen.target) and n is not gen:
+                    return gen
+        n = p
+    return None
+
+
+def _imports_of_every_property(rep: Report, ctx: Any, cfgs: dict[str, CFG]) -> None:
+    ix = ctx.py
+    pp = ix.func("model_property._process_properties")
+    nested = [h for h in ix.all_functions if h.parent is not None and _encloses(pp, h)]
+    funcs = list({f.qual: f for f in [*region(ix, pp), *nested]}.values())
+    # roles: the result (the call that hands back the two property lists and the two import sets), the mapping every property of the
+    # composed model is stored in, the two result lists - each as _process_properties calls them
+    fields = list(ix.cls("_PropertyData").fields)
+    results = [(g, c) for g in funcs for c in _own_nodes(g.node) if isinstance(c, ast.Call) and call_name(c).rsplit(".", 1)[-1] == "_PropertyData"]
+    rep.require(results, "construction of the result (_PropertyData) in the region of _process_properties")
+    role: dict[str, set[str]] = {}
+    for g, c in results:
+        given = {**dict(zip(fields, c.args)), **{kw.arg: kw.value for kw in c.keywords if kw.arg}}
+        for k, v in given.items():
+            role.setdefault(k, set()).update(_in_caller(pp, g, _unfiltered_sources(v, Locals(g.node)) or names_in(v)))
+    rep.floor("composed_result_roles", sum(1 for k in ("required_props", "optional_props", "relative_imports", "lazy_imports") if role.get(k)), 2)
+    lists = [role.get("required_props", set()), role.get("optional_props", set())]
+    storage: set[str] = set()
+    for g in funcs:
+        mine = local_names(g.node) if g.qual != pp.qual else set()
+        for n in _own_nodes(g.node):
+            if _is_store(n, mine):
+                tg = n.targets if isinstance(n, ast.Assign) else [n.target]  # type: ignore[attr-defined]
+                storage |= _in_caller(pp, g, {t.value.id for t in tg if isinstance(t, ast.Subscript) and isinstance(t.value, ast.Name)})
+    rep.require(storage, "the mapping the properties of the composed model are collected in")
+
+    def seen_from_pp(g: Any, sources: set[str]) -> set[str]:
+        """a helper's parameter stands for everything the argument of its call iterates"""
+        if g.qual == pp.qual or _encloses(pp, g):
+            return sources
+        out = set(sources)
+        for h in funcs:
+            for c in calls_in(h.node):
+                if call_name(c).rsplit(".", 1)[-1] == g.name:
+                    bound = _bind_args(g.node, c) or {}
+                    for p_, a in bound.items():
+                        if p_ in sources:
+                            out |= seen_from_pp(h, _unfiltered_sources(a, Locals(h.node))) if h.qual != g.qual else set()
+        return out
+
+    for method, what in (("get_imports", "imports"), ("get_lazy_imports", "lazy-imports")):
+        verdicts: list[tuple[bool, bool, str, Any, ast.AST]] = []
+        for g in funcs:
+            cfg = cfg_of(g, cfgs)
+            for c in _own_nodes(g.node):
+                if not (isinstance(c, ast.Call) and isinstance(c.func, ast.Attribute) and c.func.attr == method and isinstance(c.func.value, ast.Name)):
+                    continue
+                b = _binder(g.node, c, c.func.value.id)
+                if b is None:
+                    continue  # not the element of an iteration (a single extra property, say)
+                sources = seen_from_pp(g, _unfiltered_sources(b.iter, Locals(g.node)))
+                covers = bool(sources & storage) or (all(lists) and all(l_ & sources for l_ in lists))
+                if isinstance(b, ast.comprehension):
+                    always = not b.ifs
+                else:
+                    s = stmt_of(g.node, c)
+                    inside = {id(x) for x in ast.walk(b)}
+                    skipping = cfg.reachable_from(b.body[0], avoid=lambda n, s=s: n is s) if b.body[0] is not s else set()
+                    # the next element is reached, or the loop is left for good, without the call (an error return ends everything)
+                    always = s is not None and not any(n is b or (n is not EXIT and id(n) not in inside) for n in skipping)
+                verdicts.append((covers, always, norm(b.iter)[:60], g, c))
+        ok = any(cv and al for cv, al, _, _, _ in verdicts)
+        at = where(verdicts[0][3], verdicts[0][4]) if verdicts else where(pp, pp.node)
+        rep.check(ok, "R15.7", f"_process_properties::every-property-{what}",
+                  f"{method}() is not called for every property of the composed model (all collected properties, on every path of the "
+                  "iteration): a property taken over from a parent, or one kind of property, contributes no import and the generated "
+                  "module fails with NameError when that property is used", at,
+                  lhs=[{"over": it_, "all_properties": cv, "on_every_path": al} for cv, al, it_, _, _ in verdicts],
+                  rhs="an iteration over all collected properties that calls it unconditionally")
+
+
+# ======================================================================================================================
+# R15.8: the schema layer does not take a composition apart
+# ======================================================================================================================
+
+# confirmed exceptions, frozen (shape of the schema -> why allOf may be moved away from its sibling keywords there), one reason per line
+_ALLOF_MOVED_FOR = {
+    "no type": "upstream reads `nullable` + allOf without a `type` as oneOf[null, Schema(allOf=...)]: `properties` / `required` written next "
+               "to the allOf stay on the outer (now union) schema and are lost - a defect of /repo itself, reported, not decided here",
+}
+_TYPED_SHAPES = {"type is a string": ("str", "list"), "type is a list": ("list", "str")}
+
+
+def _reachable_under(cfg: CFG, env: dict[str, bool], store: dict[str, ast.expr | None]) -> set[object]:
+    """the statements that can be executed when the given atoms have the given truth values (other atoms are free): a decision whose test
+    cannot have an outcome does not go that way, whatever the order or nesting of the decisions"""
+    seen: set[object] = {ENTRY}
+    stack: list[object] = [ENTRY]
+    while stack:
+        n = stack.pop()
+        closed: set[int] = set()
+        if isinstance(n, ast.If):
+            t_entry, f_entry = _arm_entries(cfg, n, True)
+            if t_entry is not f_entry:
+                possible = _values_of_test(n.test, env, store)
+                closed = {id(e) for v, e in ((True, t_entry), (False, f_entry)) if v not in possible}
+        for nx in cfg.succ.get(n, ()):
+            if id(nx) not in closed and nx not in seen:
+                seen.add(nx)
+                stack.append(nx)
+    return seen
+
+
+def _composed_schema_stays_whole(rep: Report, ctx: Any, cfgs: dict[str, CFG]) -> None:
+    ix = ctx.py
+    sch = ix.cls("Schema")
+    n_moves = 0
+    for m in sch.methods.values():
+        pos = [*m.node.args.posonlyargs, *m.node.args.args]
+        if not pos or m.kind in ("staticmethod", "classmethod"):
+            continue
+        me = pos[0].arg
+
+        def of_me(t: ast.AST, me: str = me) -> bool:
+            return isinstance(t, ast.Attribute) and t.attr == "allOf" and isinstance(t.value, ast.Name) and t.value.id == me
+
+        moves = []
+        for st in ast.walk(m.node):
+            if isinstance(st, (ast.Assign, ast.AugAssign, ast.AnnAssign, ast.Delete)):
+                tg = st.targets if isinstance(st, (ast.Assign, ast.Delete)) else [st.target]
+                if any(of_me(x) for t in tg for x in ast.walk(t) if isinstance(getattr(x, "ctx", None), (ast.Store, ast.Del))):
+                    moves.append(st)
+            elif isinstance(st, ast.Expr) and isinstance(st.value, ast.Call) and isinstance(st.value.func, ast.Attribute) and \
+                    st.value.func.attr in ("clear", "pop", "remove") and of_me(st.value.func.value):
+                moves.append(st)
+        if not moves:
+            continue
+        n_moves += len(moves)
+        cfg = cfg_of(m, cfgs)
+        lc = Locals(m.node)
+        store: dict[str, ast.expr | None] = {n: ds[0][2] for n, ds in lc.defs.items()
+                                              if len(ds) == 1 and ds[0][0] == "assign" and isinstance(ds[0][2], ast.expr)}
+        taken = []
+        type_tests = [r for c in calls_in(m.node) if call_name(c) == "isinstance" and len(c.args) == 2
+                      for r in [_resolve(c, _State(store))] if isinstance(r, ast.Call) and norm(r.args[0]) == f"{me}.type"]
+        for shape, (yes, no) in _TYPED_SHAPES.items():
+            env = {f"isinstance({me}.type, {yes})": True, f"isinstance({me}.type, {no})": False, f"{me}.type is None": False,
+                   f"{me}.type == None": False, f"{me}.type": True}
+            for r in type_tests:  # whatever classes a test names, alone or in a tuple
+                env[norm(r)] = yes in {norm(t) for t in (r.args[1].elts if isinstance(r.args[1], ast.Tuple) else [r.args[1]])}
+            can = _reachable_under(cfg, env, store)
+            taken += [f"{shape}: {norm(st)[:50]}" for st in moves if st in can]
+        rep.check(not taken, "R15.8", f"Schema.{m.name}::allOf-stays-with-typed-schema",
+                  "a schema that has a `type` loses its allOf to a nested schema: the properties and `required` written next to the allOf are "
+                  "no longer part of the composition (they are silently dropped from the composed model)", where(m, moves[0]),
+                  lhs=taken, rhs=f"allOf is moved only for: {sorted(_ALLOF_MOVED_FOR)}")
+    rep.floor("allOf_moved_by_schema_validators", n_moves, 1)
 
 
 # ======================================================================================================================
@@ -1227,7 +1773,7 @@ def _parents_first(rep: Report, ctx: Any, cfgs: dict[str, CFG]) -> None:
               where(pp, pp.node))
 
 
-def _values_of_test(test: ast.expr, env: dict[str, bool]) -> set[bool]:
-    """the truth values a test can take when the given atoms have the given values (other atoms are free)"""
+def _values_of_test(test: ast.expr, env: dict[str, bool], store: dict[str, ast.expr | None] | None = None) -> set[bool]:
+    """the truth values a test can take when the given atoms have the given values (other atoms are free; `store`: what locals hold)"""
     ex = SymExec(ast.parse("def _():\n    pass").body[0], env)  # type: ignore[arg-type]
-    return {v for v, _ in ex._truth(test, _State())}
+    return {v for v, _ in ex._truth(test, _State(store))}
